@@ -143,4 +143,5 @@ def dict_from_pairs(I, cell: ListCell):
                                             z3.And(first(k) <= j, j <= last(k)))))
     # order of the result = order of first occurrences
     ctx.assume(z3.ForAll([k, k2], z3.Implies(z3.And(d.dom[k], d.dom[k2], first(k) < first(k2)), d.pos[k] < d.pos[k2])))
+    d.meta = {"pairs": L, "first": first, "last": last}
     return DictCell(d)
